@@ -43,6 +43,7 @@ static std::string userinfoImage(const std::string &raw) {
 }
 // Encode() exactly as Uri::absolutePath() applies it
 static std::string pathImage(const std::string &raw) {
+    if (raw.empty()) return raw; // Uri::path() substitutes "/" for an empty path before Encode() sees it
     AnyP::Uri u;
     u.setScheme(AnyP::PROTO_HTTP, "http");
     u.host("h");
